@@ -11,7 +11,10 @@ static GLOBAL: Ledger = Ledger;
 
 mod arcad;
 mod cstrad;
+mod feedad;
+mod intresad;
 mod vecad;
+mod viewsad;
 mod wakerad;
 
 fn main() {
@@ -24,6 +27,9 @@ fn main() {
     match args[1].as_str() {
         "vec" => vecad::main(&args[2..]),
         "arc" => arcad::main(&args[2..]),
+        "views" => viewsad::main(&args[2..]),
+        "intres" => intresad::main(&args[2..]),
+        "feed" => feedad::main(&args[2..]),
         "cstr" => cstrad::main(&args[2..]),
         "waker" => wakerad::main(&args[2..]),
         m => {
